@@ -444,8 +444,8 @@ class SpooledStringIO(SpooledIOBase):
             self._traverse_codepoints(self.tell(), pos)
             self._tell = start_pos + pos
         elif mode == os.SEEK_END:
-            self.buffer.seek(0)
             dest_position = self.len - pos
+            self.buffer.seek(0)
             self._traverse_codepoints(0, dest_position)
             self._tell = dest_position
         else:
@@ -496,7 +496,7 @@ class SpooledStringIO(SpooledIOBase):
     @property
     def len(self):
         """Determine the number of codepoints in the file"""
-        pos = self.buffer.tell()
+        pos = self.tell()
         self.buffer.seek(0)
         total = 0
         while True:
@@ -504,7 +504,7 @@ class SpooledStringIO(SpooledIOBase):
             if not ret:
                 break
             total += len(ret)
-        self.buffer.seek(pos)
+        self.seek(pos)
         return total
 
 
